@@ -267,9 +267,10 @@ class Atoms:
     """Parameter values as atoms: two different atoms can never be matched by one actual value, one atom can be
     spelled in several ways (an integer in every integer type that holds it; a double anywhere inside the tolerance)."""
 
-    def __init__(self, rng, typed=True):
+    def __init__(self, rng, typed=True, odd_tolerances=False):
         self.rng = rng
         self.typed = typed
+        self.odd_tolerances = odd_tolerances      # double expectations also with tolerance 0, the default, negative tolerances
         self.types = rng.sample(user_type_names(), 2) if rng.random() < 0.7 else ["TypeA", "TypeB"]
 
     def atom(self, kind=None):
@@ -314,7 +315,10 @@ class Atoms:
             return {"t": "const unsigned char*", "bytes": list(a[1])}
         if k == "dbl":
             if expected:
-                return {"t": "double", "v": {"k": "fin", "neg": a[1] < 0, "q": a[1]}, "tol": {"k": "fin", "neg": False, "q": rng.choice([0, 0, 1, 8, 100])}}
+                tq = rng.choice([0, 0, 1, 8, 100])
+                if self.odd_tolerances and rng.random() < 0.5:
+                    tq = rng.choice([0, 0, DEFAULT_TOL_Q, DEFAULT_TOL_Q, 1, -1, -DEFAULT_TOL_Q, -1000])
+                return {"t": "double", "v": {"k": "fin", "neg": a[1] < 0, "q": a[1]}, "tol": {"k": "fin", "neg": tq < 0, "q": tq}}
             q = a[1]
             return {"t": "double", "v": {"k": "fin", "neg": q < 0, "q": q}, "tol": {"k": "fin", "neg": False, "q": 0}}
         return {"t": "obj", "tn": a[1], "c": [a[2], rng.randrange(1, 4)]}
@@ -327,9 +331,16 @@ def obj_within(rng, expv, mode):
     return {"t": "obj", "tn": expv["tn"], "c": [expv["c"][0], b]}
 
 
-def double_within(rng, expv):
-    """an actual double inside (or on the edge of) the expectation's tolerance"""
-    q = expv["v"]["q"] + rng.choice([0, 1, -1]) * rng.choice([0, expv["tol"]["q"]])
+DEFAULT_TOL_Q = 5      # the interfaces' default tolerance 0.005 in units of the harness grid (2^-10)
+
+
+def double_within(rng, expv, tiny=False):
+    """an actual double inside (or on the edge of) the expectation's tolerance; tiny: now and then just outside of it - by one grid
+    unit, which is less than the default tolerance -, and for a negative tolerance (which admits nothing) the expected value itself"""
+    tq = expv["tol"]["q"]
+    q = expv["v"]["q"] + rng.choice([0, 1, -1]) * rng.choice([0, max(tq, 0)])
+    if tiny and rng.random() < 0.35:
+        q = expv["v"]["q"] + rng.choice([1, -1]) * (max(tq, 0) + rng.choice([1, 1, DEFAULT_TOL_Q]))
     return {"t": "double", "v": {"k": "fin", "neg": q < 0, "q": q}, "tol": {"k": "fin", "neg": False, "q": 0}}
 
 
@@ -359,11 +370,12 @@ def data_lines(rng, scopes):
     return out
 
 
-def random_scenario(rng, typed=True, c_compatible=False, max_exp=12, max_calls=30):
+def random_scenario(rng, typed=True, c_compatible=False, max_exp=12, max_calls=30, odd_tolerances=False):
     """One scenario: flags, expectations (unambiguous by construction), actual calls derived from them with a few
     deviations, check, end.  c_compatible: only what the C interface can express (no objects; the sub-calls of one
-    call are contiguous)."""
-    A = Atoms(rng, typed)
+    call are contiguous).  odd_tolerances: double expectations also carry tolerance 0, the default tolerance, negative tolerances,
+    and the actual values lie on either side of the tolerance's edge by one grid unit."""
+    A = Atoms(rng, typed, odd_tolerances)
     lines = []
     scopes = [""] if rng.random() < (0.6 if typed else 0.75) else rng.choice([["", "s"], ["s"], ["", "s", "t"], ["s", "t"]])
     strict = {s: rng.random() < 0.25 for s in scopes}
@@ -462,7 +474,7 @@ def random_scenario(rng, typed=True, c_compatible=False, max_exp=12, max_calls=3
         subs = []
         for k, v in e["ins"].items():
             a = meta["atoms"][k]
-            av = double_within(rng, v) if a[0] == "dbl" else (obj_within(rng, v, R.cmp(s, v["tn"])) if a[0] == "obj" else A.spell(a, False))
+            av = double_within(rng, v, odd_tolerances) if a[0] == "dbl" else (obj_within(rng, v, R.cmp(s, v["tn"])) if a[0] == "obj" else A.spell(a, False))
             subs.append(["param", s, k, enc(av)])
         for k, o in e["outs"].items():
             subs.append(["outparam", s, k, o["ty"]])
